@@ -252,14 +252,16 @@ func (w *binaryWriter) WriteSymbol(val SymbolToken) error {
 		return w.err
 	}
 
+	// The text, when known, decides: the token's ID belongs to the symbol table of the
+	// stream it was read from, not to the one this writer is building.
 	var id uint64
-	if val.LocalSID != SymbolIDUnknown {
-		id = uint64(val.LocalSID)
-	} else if val.Text != nil {
+	if val.Text != nil {
 		id, w.err = w.resolveFromSymbolTable("Writer.WriteSymbol", *val.Text)
 		if w.err != nil {
 			return w.err
 		}
+	} else if val.LocalSID != SymbolIDUnknown {
+		id = uint64(val.LocalSID)
 	} else {
 		w.err = &UsageError{"Writer.WriteSymbol", "symbol token without defined text or symbol id is invalid"}
 		return w.err
@@ -518,15 +520,16 @@ func (w *binaryWriter) beginValue(api string) error {
 			return &UsageError{api, "field name not set"}
 		}
 
+		// As for symbol values and annotations, known text takes precedence over the ID.
 		var id uint64
-		if name.LocalSID != SymbolIDUnknown {
-			id = uint64(name.LocalSID)
-		} else if name.Text != nil {
+		if name.Text != nil {
 			var err error
 			id, err = w.resolve(api, *name.Text)
 			if err != nil {
 				return err
 			}
+		} else if name.LocalSID != SymbolIDUnknown {
+			id = uint64(name.LocalSID)
 		} else {
 			return &UsageError{api, "field name symbol token does not have defined text or symbol id."}
 		}
